@@ -1,13 +1,16 @@
 (* C10 — wire format, model runner and the trace oracle prop_ok. Definitions only.
 
-   case  := feat_ws feat_quic en_tcp en_ws en_quic local_peer listen:[maddr] ops:[op]
+   case  := feat_ws feat_quic en_tcp en_ws en_quic local_peer max_out(0 = none, m+1) ops:[op]
    maddr := n (tag arg)*n        tag 0 ip4 / 1 ip6 (arg = class*65536+id), 2 dns, 3 dns4, 4 dns6,
                                  5 tcp, 6 udp, 7 ws, 8 wss, 9 quic-v1, 10 p2p, 11 other
-   op    := 0 peer [maddr] victims:[maddr]        add_known_address
+   op    := 0 peer [maddr] order:[maddr] victims:[maddr]   add_known_address
           | 1 maddr kind victim:[maddr]            dial failure (kind 0 connection, 1 address)
           | 2 peer maddr listener victim:[maddr]   connection established
-          | 3 peer limit obs:[maddr]               addresses(limit) as used by dial(peer)
+          | 3 peer limit obs:[maddr]               AddressStore::addresses(limit)
           | 4 maddr                                probe: supported_transport, routing, parsers
+          | 5 maddr                                register_listen_address
+          | 6 n                                    hold n established outbound connections
+          | 7 peer outcome tcp:[maddr] ws:[maddr]  dial(peer) with the lists given to open()
    ([x] is a count-prefixed list.) The harness build has the websocket feature compiled in
    and quic compiled out; cases with other feature flags are not well-formed. *)
 From Coq Require Import List NArith ZArith Bool.
@@ -91,8 +94,9 @@ Definition p_peer : parser N := let* p := pN in if p <? NPEERS then pret p else 
 Definition p_op : parser op :=
   let* tag := pN in
   match tag with
-  | 0 => let* p := p_peer in let* l := plistb 1000 p_maddr in let* vs := plistb 1000 p_maddr in
-         pret (OAdd p l vs)
+  | 0 => let* p := p_peer in let* l := plistb 1000 p_maddr in let* o := plistb 1000 p_maddr in
+         let* vs := plistb 1000 p_maddr in
+         pret (OAdd p l o vs)
   | 1 => let* a := p_maddr in let* kind := pN in let* v := p_victim in
          match kind with
          | 0 => pret (ODialFailure a ConnFailure v)
@@ -104,6 +108,11 @@ Definition p_op : parser op :=
   | 3 => let* p := p_peer in let* limit := pN in let* obs := plistb 1000 p_maddr in
          if limit <? 1000 then pret (ODialAddrs p (N.to_nat limit) obs) else pfail
   | 4 => let* a := p_maddr in pret (OProbe a)
+  | 5 => let* a := p_maddr in if existsb is_p2p a then pfail else pret (OListen a)
+  | 6 => let* n := pN in if n <? 9 then pret (OHold (N.to_nat n)) else pfail
+  | 7 => let* p := p_peer in let* oc := pN in
+         let* t := plistb 1000 p_maddr in let* w := plistb 1000 p_maddr in
+         if oc <? 1000 then pret (ODial p (N.to_nat oc) t w) else pfail
   | _ => pfail
   end.
 
@@ -111,10 +120,10 @@ Definition p_case : parser (cfg * list op) :=
   let* fw := pBool in let* fq := pBool in
   let* et := pBool in let* ew := pBool in let* eq := pBool in
   let* lp := p_peer in
-  let* ls := plistb 100 p_maddr in
+  let* mo := pN in
   let* ops := plistb 100000 p_op in
-  if fw && negb fq && negb eq && negb (existsb (existsb is_p2p) ls)
-  then pret (mkCfg fw fq et ew eq lp ls, ops)
+  if fw && negb fq && negb eq && (mo <? 100)
+  then pret (mkCfg fw fq et ew eq lp (match dec_opt mo with Some m => Some (N.to_nat m) | None => None end), ops)
   else pfail.
 
 Definition decode_case (l : list N) : option (cfg * list op) := pall p_case l.
@@ -154,36 +163,43 @@ Definition is_bad (r : ins) : bool := match r with BadChoice => true | _ => fals
 (* the peer whose store an operation touches *)
 Definition op_peer (o : op) : option N :=
   match o with
-  | OAdd p _ _ => Some p
+  | OAdd p _ _ _ => Some p
   | ODialFailure a _ _ => match last a (Other 0) with P2p p => Some p | _ => None end
   | OEstablished p _ l _ => if l then None else Some p
-  | ODialAddrs p _ _ => Some p
-  | OProbe _ => None
+  | ODial p _ _ _ => Some p
+  | _ => None
   end.
 
 Definition enc_out (o : op) (b' : book) (r : out) : list N :=
   let d := match op_peer o with Some p => dump (get_or_empty p b') | None => [] end in
   match r with
   | RAdd n bad => [0; n; b2n bad] ++ d
-  | RUnordered => [7] ++ d
   | RIns None => [1; 0]
   | RIns (Some x) => [1; 1; b2n (is_bad x)] ++ d
   | RAddrs None => [3; 9]
   | RAddrs (Some l) => [3; 0] ++ enc_list enc_entry l
   | RProbe sup rt ptcp pws _ _ => [4; b2n sup; transport_code rt] ++ enc_parsed ptcp ++ enc_parsed pws
+  | RListen => [5]
+  | RHold n => [6; N.of_nat n]
+  | RDial DLimit => [7; 1]
+  | RDial DSelf => [7; 2]
+  | RDial DNoAddress => [7; 3]
+  | RDial DUnroutable => [7; 8]
+  | RDial DBadChoice => [7; 9]
+  | RDial (DTried t w) => [7; 0] ++ enc_list enc_entry t ++ enc_list enc_entry w ++ d
   end.
 
 Definition K : scorecfg := default_scores.
 
-Fixpoint run_trace (c : cfg) (b : book) (h : list op) : list N :=
+Fixpoint run_trace (c : cfg) (st : state) (h : list op) : list N :=
   match h with
   | [] => []
-  | o :: t => let '(b1, r) := step c K b o in enc_out o b1 r ++ run_trace c b1 t
+  | o :: t => let '(st1, r) := step c K st o in enc_out o (bk st1) r ++ run_trace c st1 t
   end.
 
 Definition run_case (l : list N) : list N :=
   match decode_case l with
-  | Some (c, h) => 1 :: run_trace c [] h
+  | Some (c, h) => 1 :: run_trace c init h
   | None => [0]
   end.
 
@@ -210,23 +226,31 @@ Definition p_parsed : parser (option parsed) :=
 
 Inductive obs :=
 | BAdd (n : N) (s : store)
-| BUnordered (s : store)
 | BIns0
 | BIns (s : store)
 | BAddrs (l : option store)
-| BProbe (sup : bool) (rt : N) (ptcp pws : option parsed).
+| BProbe (sup : bool) (rt : N) (ptcp pws : option parsed)
+| BListen
+| BHold (n : nat)
+| BDialCode (code : N)
+| BDialTried (t w s : store).
 
 Definition p_obs : parser obs :=
   let* tag := pN in
   match tag with
   | 0 => let* n := pN in let* _ := pN in let* s := p_store in pret (BAdd n s)
-  | 7 => let* s := p_store in pret (BUnordered s)
   | 1 => let* f := pN in
          if f =? 0 then pret BIns0 else let* _ := pN in let* s := p_store in pret (BIns s)
   | 3 => let* f := pN in
          if f =? 0 then let* l := p_store in pret (BAddrs (Some l)) else pret (BAddrs None)
   | 4 => let* sup := pBool in let* rt := pN in let* a := p_parsed in let* b := p_parsed in
          pret (BProbe sup rt a b)
+  | 5 => pret BListen
+  | 6 => let* n := pN in if n <? 1000 then pret (BHold (N.to_nat n)) else pfail
+  | 7 => let* code := pN in
+         if code =? 0 then
+           let* t := p_store in let* w := p_store in let* s := p_store in pret (BDialTried t w s)
+         else pret (BDialCode code)
   | _ => pfail
   end.
 
@@ -234,7 +258,6 @@ Definition p_obs : parser obs :=
 
 Definition entry_eqb (x y : maddr * Z) : bool := maddr_eqb (fst x) (fst y) && Z.eqb (snd x) (snd y).
 Definition store_eqb (a b : store) : bool := list_eqb entry_eqb a b.
-Definition mem (a : maddr) (s : store) : bool := match find a s with Some _ => true | None => false end.
 
 Definition store_ok (k : scorecfg) (s : store) : bool :=
   (length s <=? cap k)%nat && nodup_addrs (map fst s).
@@ -246,29 +269,35 @@ Definition parsed_ok (r : option parsed) (peer : N) : bool :=
   | _ => false
   end.
 Definition dial_ok (c : cfg) (peer : N) (a : maddr) : bool :=
-  match last a (Other 0) with P2p q => q =? peer | _ => false end &&
+  names peer a &&
   existsb (fun t => enabled c t && parsed_ok (parse t a) peer) [TTcp; TWs; TQuic].
 
 (* a record of the old store is either still there with the same score, or it was displaced:
-   then the bound was reached and it had the lowest score *)
-Definition kept_or_min (k : scorecfg) (s s' : store) (x : maddr * Z) : bool :=
+   then the store is at its bound and nothing that stayed (with its score) scores lower (within one call several
+   records can be displaced one after the other, each a minimum at its time). A displaced record
+   that is offered again in the same call comes back as a new one. *)
+Definition displaced_ok (k : scorecfg) (s s' : store) (x : maddr * Z) : bool :=
+  (cap k <=? length s')%nat &&
+  forallb (fun y => negb (match find (fst y) s' with Some z => Z.eqb z (snd y) | None => false end)
+                    || Z.leb (snd x) (snd y)) s.
+Definition kept_or_min (k : scorecfg) (offered : maddr -> bool) (s s' : store) (x : maddr * Z) : bool :=
   match find (fst x) s' with
-  | Some z => Z.eqb z (snd x)
-  | None => (cap k <=? length s)%nat &&
-            match min_score s with Some m => Z.leb (snd x) m | None => false end
+  | Some z => Z.eqb z (snd x) || (offered (fst x) && displaced_ok k s s' x)
+  | None => displaced_ok k s s' x
   end.
 
 Definition count_new (s s' : store) : nat := length (filter (fun x => negb (mem (fst x) s)) s').
 Definition count_gone (s s' : store) : nat := length (filter (fun x => negb (mem (fst x) s')) s).
 
-Definition add_ok (c : cfg) (k : scorecfg) (peer : N) (addrs : list maddr) (s s' : store) (n : N) : bool :=
+Definition add_ok (c : cfg) (k : scorecfg) (ls : list maddr) (peer : N) (addrs : list maddr)
+           (s s' : store) (n : N) : bool :=
   store_ok k s' &&
   (* remembered only if offered, attributable, not local, dialable *)
   forallb (fun x => mem (fst x) s ||
                     (existsb (fun a => maddr_eqb (with_peer peer a) (fst x)) addrs &&
-                     dial_ok c peer (fst x) && negb (is_local c (fst x)))) s' &&
-  (* rediscovery erases nothing; only a lowest-scored record is displaced, only at the bound *)
-  forallb (kept_or_min k s s') s &&
+                     dial_ok c peer (fst x) && negb (is_local c ls (fst x)))) s' &&
+  (* rediscovery erases nothing; only lowest-scored records are displaced, only at the bound *)
+  forallb (kept_or_min k (fun a => existsb (maddr_eqb a) addrs) s s') s &&
   (count_gone s s' <=? count_new s s')%nat &&
   (N.of_nat (count_new s s') <=? n) && (n <=? N.of_nat (length addrs)).
 
@@ -287,39 +316,52 @@ Definition rescore_ok (k : scorecfg) (a' : maddr) (e : Z) (s s' : store) : bool 
                         | None => false
                         end) s
   | None =>
-      forallb (kept_or_min k s s') s &&
+      forallb (kept_or_min k (fun _ => false) s s') s &&
       (count_gone s s' <=? count_new s s')%nat &&
       forallb (fun x => mem (fst x) s ||
                         (maddr_eqb (fst x) a' &&
                          (Z.eqb (snd x) e || Z.eqb (snd x) (new_score_of k a' e)))) s'
   end.
 
-Definition step_ok (c : cfg) (k : scorecfg) (b : book) (o : op) (ob : obs) : option book :=
+(* the outcome of a dial: the address that connected gets the established score, the attempts
+   that failed get the failure score, everything else is untouched *)
+Definition outcome_ok (k : scorecfg) (s s' : store) (won : option maddr) (failed : list maddr) : bool :=
+  (length s' =? length s)%nat &&
+  forallb (fun x =>
+             let want :=
+               if match won with Some a => maddr_eqb (fst x) a | None => false end then sc_established k
+               else if existsb (maddr_eqb (fst x)) failed then sc_failure k
+               else snd x in
+             match find (fst x) s' with Some z => Z.eqb z want | None => false end) s.
+
+Record ostate := mkO { o_bk : book; o_lst : list maddr; o_held : nat }.
+
+Definition step_ok (c : cfg) (k : scorecfg) (st : ostate) (o : op) (ob : obs) : option ostate :=
+  let b := o_bk st in
+  let upd (b' : book) := Some (mkO b' (o_lst st) (o_held st)) in
   match o, ob with
-  | OAdd peer addrs _, BAdd n s' =>
-      if add_ok c k peer addrs (get_or_empty peer b) s' n then Some (put peer s' b) else None
-  | OAdd peer _ _, BUnordered s' =>
-      if store_eqb (get_or_empty peer b) s' then Some b else None
+  | OAdd peer addrs _ _, BAdd n s' =>
+      if add_ok c k (o_lst st) peer addrs (get_or_empty peer b) s' n then upd (put peer s' b) else None
   | ODialFailure a f _, _ =>
       match last a (Other 0), ob with
       | P2p p, BIns s' =>
           if rescore_ok k (with_peer p a) (failure_score k f) (get_or_empty p b) s'
-          then Some (put p s' b) else None
+          then upd (put p s' b) else None
       | P2p _, _ => None
-      | _, BIns0 => Some b
+      | _, BIns0 => Some st
       | _, _ => None
       end
   | OEstablished peer a listener _, _ =>
       match listener, ob with
-      | true, BIns0 => Some b
+      | true, BIns0 => Some st
       | false, BIns s' =>
           if rescore_ok k (with_peer peer a) (sc_established k) (get_or_empty peer b) s'
-          then Some (put peer s' b) else None
+          then upd (put peer s' b) else None
       | _, _ => None
       end
   | ODialAddrs peer limit obsin, BAddrs (Some l) =>
       if list_eqb maddr_eqb (map fst l) obsin && addresses_ok limit (get_or_empty peer b) l
-      then Some b else None
+      then Some st else None
   | OProbe a, BProbe sup rt ptcp pws =>
       (* accepted by supported_transport => the transport it is routed to is enabled and its own
          parser accepts it, with the peer of the trailing /p2p and a specified host *)
@@ -327,23 +369,63 @@ Definition step_ok (c : cfg) (k : scorecfg) (b : book) (o : op) (ob : obs) : opt
         match last a (Other 0) with
         | P2p q =>
             match rt with
-            | 0 => if enabled c TTcp && parsed_ok ptcp q then Some b else None
-            | 1 => if enabled c TWs && parsed_ok pws q then Some b else None
+            | 0 => if enabled c TTcp && parsed_ok ptcp q then Some st else None
+            | 1 => if enabled c TWs && parsed_ok pws q then Some st else None
             | _ => None
             end
         | _ => None
         end
-      else Some b
+      else Some st
+  | OListen a, BListen => Some (mkO b (o_lst st ++ [a]) (o_held st))
+  | OHold _, BHold n =>
+      (* the outbound limit is never exceeded *)
+      if match max_out c with Some m => (n <=? m)%nat | None => true end
+      then Some (mkO b (o_lst st) n) else None
+  | ODial peer _ _ _, BDialCode code =>
+      let s := get_or_empty peer b in
+      match code with
+      | 1 => (* refused for the limit only when there is no free outbound capacity *)
+             match max_out c with
+             | Some m => if (m <=? o_held st)%nat then Some st else None
+             | None => None
+             end
+      | 2 => if peer =? local_peer c then Some st else None
+      | 3 => match s with [] => Some st | _ => None end
+      | 8 => if existsb (fun x => negb (enabled c (route c (fst x)) && names peer (fst x))) s
+             then Some st else None
+      | _ => None
+      end
+  | ODial peer outcome tcp ws, BDialTried t w s' =>
+      let s := get_or_empty peer b in
+      match free_capacity c (mkState b (o_lst st) (o_held st)) (length s) with
+      | None => None
+      | Some limit =>
+          let n := (length tcp + length ws)%nat in
+          let j := match outcome with O => O | S j0 => (j0 mod n)%nat end in
+          let '(won, failed) :=
+            match outcome with
+            | O => (None, tcp ++ ws)
+            | S _ => if (j <? length tcp)%nat then (nth_error tcp j, firstn j tcp)
+                     else (nth_error ws (j - length tcp), firstn (j - length tcp) ws)
+            end in
+          if negb (peer =? local_peer c) &&
+             list_eqb maddr_eqb (map fst t) tcp && list_eqb maddr_eqb (map fst w) ws &&
+             (* non-increasing score order, limited by the free outbound capacity *)
+             addresses_ok limit s (merge_desc t w) &&
+             nonincreasing (map snd t) && nonincreasing (map snd w) &&
+             store_ok k s' && outcome_ok k s s' won failed
+          then upd (put peer s' b) else None
+      end
   | _, _ => None
   end.
 
-Fixpoint steps_ok (c : cfg) (k : scorecfg) (b : book) (h : list op) : parser bool :=
+Fixpoint steps_ok (c : cfg) (k : scorecfg) (st : ostate) (h : list op) : parser bool :=
   match h with
   | [] => pret true
   | o :: t =>
       let* ob := p_obs in
-      match step_ok c k b o ob with
-      | Some b' => steps_ok c k b' t
+      match step_ok c k st o ob with
+      | Some st' => steps_ok c k st' t
       | None => pret false
       end
   end.
@@ -353,7 +435,7 @@ Fixpoint steps_ok (c : cfg) (k : scorecfg) (b : book) (h : list op) : parser boo
 Definition prop_ok (case trace : list N) : bool :=
   match decode_case case, trace with
   | Some (c, h), 1 :: body =>
-      match steps_ok c K [] h body with
+      match steps_ok c K (mkO [] [] 0) h body with
       | Some (ok, rest) => if ok then match rest with [] => true | _ => false end else false
       | None => false
       end
